@@ -118,6 +118,63 @@ def run(ck: Check):
                        "symbols": t["syms"], "assignment": t["assignments"][k],
                        "formula": {"latency": str(lat), "energy": str(en), "usage": {m: str(u) for m, u in usage.items()}},
                        "executed": {"latency": v["latency"], "energy": v["energy"], "footprint": v["footprint"]}})
+    history_part(ck)
+
+
+def history_part(ck):
+    """The compiled formulas of a spec must not depend on what was mapped earlier in the same process (lambdify cache,
+    symbol caches).  A twin of a micro-spec whose DRAM energies differ from the original's in the 6th significant digit
+    (3.5 -> 3.5 + 2^-16; both dyadic, so every product with an integer count is exact) is mapped right after the original
+    in one process; every recorded formula of the twin is compared with the real model on the twin, exactly."""
+    import copy
+    thorough = ck.tier == "thorough"
+    bases = worlds_for(ck, 2 if not thorough else 6, 700)
+    twins = []
+    for w in bases:
+        top = min(w["level"], key=lambda c: w["level"][c])
+        for a in w["cost"][top]["energy"]:
+            w["cost"][top]["energy"][a] = [7, 2]
+        t = copy.deepcopy(w)
+        t["id"] = w["id"] + 50
+        for a in t["cost"][top]["energy"]:
+            t["cost"][top]["energy"][a] = [7 * 2 ** 15 + 1, 2 ** 16]
+        twins.append(t)
+    outs = tc.collect(ck, twins, ("ENERGY", "LATENCY"), preludes=bases)
+    recs, index = [], []
+    for w, o in zip(twins, outs):
+        if "exception" in o:
+            continue
+        for t in o["templates"]:
+            if t.get("unsupported"):
+                continue
+            for k, a in enumerate(t["assignments"]):
+                recs.append({"wid": w["id"], "nodes": tc.instantiate(t["nodes"], t["syms"], a)})
+                index.append((w, t, k))
+    if not recs:
+        raise Machinery("history part: no template instance recorded")
+    real = ln.evaluate_records(ck, twins, recs)
+    n = 0
+    for (w, t, k), rec, r in zip(index, recs, real):
+        if "exception" in r or "error" in r:
+            continue
+        ck.traces += 1
+        n += 1
+        lat, en, usage = formula_values(t, k)
+        probs = []
+        if lat is not None and r["latency"] != lat:
+            probs.append(("latency-vs-model", lat, r["latency"]))
+        if en is not None and r["energy"] != en:
+            probs.append(("energy-vs-model", en, r["energy"]))
+        if probs:
+            ck.violation("C07/history/formula-differs/%s" % probs[0][0],
+                         "world %d (mapped after its near-identical twin %d in the same process) template %s, %s = %s (%s): %s"
+                         % (w["id"], w["id"] - 50, t["id"], t["syms"], t["assignments"][k], ln.short(rec["nodes"]),
+                            "; ".join("%s formula=%s concrete=%s" % p for p in probs[:4])),
+                         {"world": w, "prelude": next(b for b in bases if b["id"] == w["id"] - 50), "nodes": rec["nodes"],
+                          "template_nodes": t["nodes"], "syms": t["syms"], "assignment": t["assignments"][k], "kind": "history"})
+    ck.extra["history_instances_compared"] = n
+    if n == 0:
+        raise Machinery("history part: nothing compared")
 
 
 def _lemma_file(ck):
@@ -136,6 +193,23 @@ def replay(path):
     ck.work = os.path.join(os.path.dirname(os.path.abspath(path)), "_replay_tmp")
     os.makedirs(ck.work, exist_ok=True)
     w = rec["world"]
+    if rec.get("kind") == "history":
+        outs = tc.collect(ck, [w], ("ENERGY", "LATENCY"), nproc=1, preludes=[rec["prelude"]])
+        bad = 0
+        for t in outs[0].get("templates", []):
+            if t.get("unsupported") or t["nodes"] != rec.get("template_nodes"):
+                continue
+            k = t["assignments"].index(rec["assignment"])
+            r = ln.evaluate_records(ck, [w], [{"wid": w["id"], "nodes": rec["nodes"]}])[0]
+            lat, en, usage = formula_values(t, k)
+            print("formula after prelude: latency %s energy %s; real model: %s %s" % (lat, en, r.get("latency"), r.get("energy")))
+            if "energy" in r and (r["latency"] != lat or r["energy"] != en):
+                bad += 1
+        if bad:
+            print("VIOLATION property=C07 replay=%s" % path)
+            return 1
+        print("no disagreement on this case")
+        return 0
     outs = tc.collect(ck, [w], ("ENERGY", "LATENCY"), nproc=1)
     cases, index, verdicts = tc.execute_all(ck, [w], outs, "replay")
     bad = 0
